@@ -103,9 +103,11 @@ def nextWordLoop (text : List Char) : List Char → Nat → WS → Nat × List C
       if st.foundRegularRune then (st.endPos, slice text st.startPos st.endPos)
       else nextWordLoop text r (pos + 1) { st with endOnNext := true }
     else if c == '\\' && st.level == 0 then
+      -- a backslash that follows a backslash makes the previous one an ordinary character
+      let fr := st.foundRegularRune || st.escape
       nextWordLoop text r (pos + 1)
-        { st with escape := true,
-                  startPos := if !st.foundRegularRune then pos else st.startPos,
+        { st with escape := true, foundRegularRune := fr,
+                  startPos := if !fr then pos else st.startPos,
                   foundNonSpace := true, endPos := pos }
     else if c == ' ' then
       if st.foundNonSpace && st.level == 0 then (pos, slice text st.startPos pos)
